@@ -189,6 +189,10 @@ func chunkings(small bool) []chunking {
 	// the whole tampered stream arrives in the same segment as the server's
 	// handshake response (client role only; skipped for the server)
 	cs = append(cs, chunking{"coalesced-with-handshake", func(int) func(*wire.Conn, int, int) []int { return nil }})
+	// the application reads with a buffer much smaller than a frame's payload:
+	// decoded data is left over when the error is first known
+	cs = append(cs, chunking{"whole/small-read-buffer", func(int) func(*wire.Conn, int, int) []int { return nil }})
+	cs = append(cs, chunking{"whole/small-read-buffer/peer-stays-silent", func(int) func(*wire.Conn, int, int) []int { return nil }})
 	// the attacker goes silent instead of ending the stream: only for damage
 	// that is certain to be detected without more data
 	cs = append(cs, chunking{"whole/peer-stays-silent", func(int) func(*wire.Conn, int, int) []int { return nil }})
@@ -240,6 +244,7 @@ func familyPart(role string, seq []fclass, fam string, seed int64, thorough bool
 					break
 				}
 				for _, ch := range chunkings(size <= 300) {
+					smallBuf := strings.Contains(ch.name, "/small-read-buffer")
 					coalesce := strings.HasPrefix(ch.name, "coalesced-with-handshake")
 					silent := strings.HasSuffix(ch.name, "/peer-stays-silent")
 					if coalesce && (role != "client" || size > 6000) {
@@ -345,6 +350,9 @@ func familyPart(role string, seq []fclass, fam string, seed int64, thorough bool
 							return
 						}
 						buf := make([]byte, 4096)
+						if smallBuf {
+							buf = make([]byte, 61)
+						}
 						for k := 0; k < 100000; k++ {
 							n, err := conn.Read(buf)
 							got = append(got, buf[:n]...)
